@@ -105,6 +105,12 @@ int main(int argc, char *argv[])
         if (!hash_file("-", algorithm))
             exit_val = 1;
     }
+
+    /* Digests or verdicts that could not be written are not a success */
+    if (fflush(stdout) != 0 || ferror(stdout)) {
+        fprintf(stderr, "%s: error writing to standard output\n", progname);
+        exit_val = 1;
+    }
     return exit_val;
 }
 
